@@ -38,6 +38,18 @@ WByte(t, j) == IF (j + t) % 5 = 4 THEN 10 ELSE 65 + ((t * 7 + j) % 26)
 (* white space and digits as read("*n") (C fscanf "%lf") sees them *)
 WS == {9, 10, 11, 12, 13, 32}
 IsDigit(b) == 48 <= b /\ b <= 57
+(* bytes with which fscanf("%lf") can start a numeral: digit + - . and the
+   first letters of nan / inf; and e E p P _, which C rejects without
+   consuming but Go's float token (fmt.Fscanf, used by iolib.go) consumes
+   before failing - a known divergence in the cursor after a FAILED read("*n")
+   (one byte further), not repairable without replacing Fscanf: histories
+   whose "*n" fails on one of those bytes are not generated *)
+NumStartable(b) == IsDigit(b) \/ b \in {43, 45, 46, 78, 110, 73, 105} \/ b \in {69, 101, 80, 112, 95}
+
+(* a count that is negative or does not fit 32 bits is given by name in the
+   field a of "read" (TLC has 32-bit integers): Lua converts the count to
+   size_t, so all of them mean "the rest of the file" (nil at end of file) *)
+RestCounts == {"-1", "-5", "2^31", "2^40", "1e12"}
 
 (* call forms of seek: "seek0" is f:seek() = seek("cur", 0); "seek1" is
    f:seek(whence) with the offset omitted = seek(whence, 0) *)
@@ -57,13 +69,14 @@ FmtOp(f) ==
       [] f[1] = "a" -> [op |-> "readall", a |-> "", n |-> 0]
 
 (* ---- open modes (Lua 5.1 io.open / ISO C fopen) ------------------------ *)
-AllModes == {"r", "rb", "w", "wb", "a", "ab", "r+", "rb+", "w+", "wb+", "a+", "ab+"}
+(* ISO C allows the "b" on either side of the "+": r+b = rb+, w+b = wb+, a+b = ab+ *)
+AllModes == {"r", "rb", "w", "wb", "a", "ab", "r+", "rb+", "r+b", "w+", "wb+", "w+b", "a+", "ab+", "a+b"}
 (* "tmp" = io.tmpfile(): an update handle on a fresh, empty, anonymous file;            *)
 (* "out" = io.output(name): the default output file, opened like "w";                    *)
 (* "in"  = io.input(name): the default input file, opened like "r"                       *)
-Readable(m)  == m \in {"r", "rb", "r+", "rb+", "w+", "wb+", "a+", "ab+", "tmp", "in"}
+Readable(m)  == m \in {"r", "rb", "r+", "rb+", "r+b", "w+", "wb+", "w+b", "a+", "ab+", "a+b", "tmp", "in"}
 Writable(m)  == m \notin {"r", "rb", "in"}
-AppendM(m)   == m \in {"a", "ab", "a+", "ab+"}
-TruncM(m)    == m \in {"w", "wb", "w+", "wb+", "tmp", "out"}
-MustExist(m) == m \in {"r", "rb", "r+", "rb+", "in"}
+AppendM(m)   == m \in {"a", "ab", "a+", "ab+", "a+b"}
+TruncM(m)    == m \in {"w", "wb", "w+", "wb+", "w+b", "tmp", "out"}
+MustExist(m) == m \in {"r", "rb", "r+", "rb+", "r+b", "in"}
 =============================================================================
